@@ -22,9 +22,9 @@ SETTLE = 0.04
 
 KINDS = {
     "obey": ("exec sleep 100", {"react": "die", "delay": 0.0}),
-    "ignore": ("trap '' TERM INT; sleep 100 & wait; sleep 100",
+    "ignore": ("trap '' TERM INT USR1; sleep 100 & wait; sleep 100",
                {"react": "ignore", "children_n": 1}),
-    "exit3": ("trap 'exit 3' TERM; sleep 100 & wait",
+    "exit3": ("trap 'exit 3' TERM INT USR1; sleep 100 & wait",
               {"react": "exit", "code": 3, "delay": 0.0, "children_n": 1}),
     "self7": ("exit 7", {"react": "die", "life": 0.0,
                          "life_status": ["exit", 7]}),
@@ -141,7 +141,9 @@ def run_side(side, ops):
                     res = p.returncode
                 elif kind == 'status':
                     st = p.status()
-                    res = 'zombie' if st == psutil.STATUS_ZOMBIE else 'alive'
+                    res = ('zombie' if st == psutil.STATUS_ZOMBIE else
+                           'stopped' if st == psutil.STATUS_STOPPED else
+                           'alive')
                 elif kind == 'is_running':
                     res = p.is_running()
                 elif kind == 'children':
@@ -179,7 +181,9 @@ def strategy():
         st.tuples(st.just('spawn'), st.sampled_from(sorted(KINDS))),
         st.tuples(st.just('signal'), idx, st.sampled_from(
             [int(signal.SIGTERM), int(signal.SIGKILL), int(signal.SIGINT),
-             0, int(signal.SIGUSR1), int(signal.SIGCONT)])),
+             0, int(signal.SIGUSR1), int(signal.SIGCONT),
+             int(signal.SIGSTOP), int(signal.SIGSTOP),
+             int(signal.SIGCONT)])),
         st.tuples(st.just('poll'), idx),
         st.tuples(st.just('returncode'), idx),
         st.tuples(st.just('status'), idx),
@@ -204,6 +208,7 @@ def main(argv):
     import hypothesis
     from hypothesis import given, settings, HealthCheck, Phase
     count = [0]
+    retried = [0]
     bad = []
 
     @hypothesis.seed(a.seed)
@@ -212,19 +217,29 @@ def main(argv):
               suppress_health_check=list(HealthCheck))
     @given(strategy())
     def t(ops):
-        real, fake = RealSide(), FakeSide()
-        try:
-            r = run_side(real, ops)
-            f = run_side(fake, ops)
-        finally:
-            real.cleanup()
+        f = run_side(FakeSide(), ops)
+        # the real side depends on scheduling (a shell needs a moment to
+        # install its traps): a disagreement counts only when it shows on
+        # three runs in a row
+        for _attempt in range(3):
+            real = RealSide()
+            try:
+                r = run_side(real, ops)
+            finally:
+                real.cleanup()
+            if r == f:
+                break
+            retried[0] += 1
+            time.sleep(0.2)
         count[0] += 1
         if r != f:
             bad.append((ops, r, f))
             raise AssertionError("kernel model disagrees with real kernel")
     try:
         t()
-    except AssertionError:
+    except BaseException:
+        if not bad:
+            raise
         ops, r, f = bad[-1]
         print("CONFORMANCE-MISMATCH ops=%s" % json.dumps(ops))
         for x, y in zip(r, f):
@@ -236,7 +251,8 @@ def main(argv):
         os.path.abspath(__file__))), '.work')
     os.makedirs(out, exist_ok=True)
     with open(os.path.join(out, 'conformance.json'), 'w') as fh:
-        json.dump({"sequences": count[0], "seed": a.seed}, fh)
+        json.dump({"sequences": count[0], "seed": a.seed,
+                   "real_side_retries": retried[0]}, fh)
     return 0
 
 
